@@ -87,7 +87,7 @@ def main():
             'kind_free_text': 'hand-written deterministic simulator: own PRNG (splitmix64), simulated storage and stream handles with a fault plan, seeded scheduler over cooperative actors (one API call / one reader next() per step), independent reference model of the DiffX spec, ddmin shrinker, scenario JSON = replay file; 16 forked workers',
         }],
         'checks': checks,
-        'notes': 'VERIF_SEED = master seed (default 1); VERIF_BUDGET_S / VERIF_RUNS override the tier budget; exit 0 ok / 1 VIOLATION / 2 HARNESS-ERROR. known_findings.json lists the open findings (C07 short read, two shapes of one root cause; C19 equality blurs JSON number typing) and the 19 repairs committed to /repo with their regression scenarios (regress/), which every run of the property's check re-executes. seeded/ holds 136+ independently written breaking changes, all caught (DESIGN.md 12.5).',
+        'notes': 'VERIF_SEED = master seed (default 1); VERIF_BUDGET_S / VERIF_RUNS override the tier budget; exit 0 ok / 1 VIOLATION / 2 HARNESS-ERROR. known_findings.json lists the open findings (C07 short read, two shapes of one root cause; C19 equality blurs JSON number typing) and the 19 repairs committed to /repo with their regression scenarios (regress/), which every run of that property check re-executes. seeded/ holds 136+ independently written breaking changes, all caught (DESIGN.md 12.5).',
         'not_applicable': [
             {'property_id': 'C14', 'reason': 'get_unified_diff_hunks is a pure function of an in-memory list of lines: no stream, carried state, second party, schedule or fault for a simulator to control (its totals are exercised incidentally by C13; no claim)'},
             {'property_id': 'C16', 'reason': 'split_lines is a pure function of two byte strings; an algebraic identity with no schedule, clock, fault or interleaving in it (small-scope enumeration or proof would be the fitting technique)'},
